@@ -25,7 +25,7 @@ def sym_val(vm, name, arr_max=2, depth=1, dict_max=1, kinds=None, str_factory=No
         disc = z3.BitVec(f'{name}.kind', 64)
         c = _TERMS[key] = (disc, z3.Or(*[disc == k for k in allowed]))
     disc = c[0]
-    vm.assume(c[1]); vm.domains[disc.get_id()] = set(allowed)
+    vm.assume(c[1]); vm.domains[disc.get_id()] = set(allowed); vm.keep.append(disc)
 
     def factory(v):
         if v == 2: return [z3.Bool(f'{name}.b')]
@@ -54,7 +54,7 @@ def sym_dictkey(vm, name, str_factory=None):
         disc = z3.BitVec(f'{name}.kind', 64)
         c = _TERMS[key] = (disc, z3.ULT(disc, 4))
     disc = c[0]
-    vm.assume(c[1]); vm.domains[disc.get_id()] = {0, 1, 2, 3}
+    vm.assume(c[1]); vm.domains[disc.get_id()] = {0, 1, 2, 3}; vm.keep.append(disc)
 
     def factory(v):
         if v == 2: return [z3.Bool(f'{name}.b')]
